@@ -129,7 +129,7 @@ Definition end_of_term (ts : list ptok) : bool :=
   | [] => true
   | (t, _) :: _ =>
       match t with
-      | TEOL | TSEP _ | TRP | TWITH | TTHEN | TELSE | TCOMMA => true
+      | TEOL | TSEP _ | TRP | TWITH | TTHEN | TELSE | TELIF | TCOMMA => true
       | _ => is_binop t
       end
   end.
@@ -141,6 +141,11 @@ Definition end_of_block (c : nat) (ts : list ptok) : bool :=
   | (t, c') :: _ => (c' <? c) || match t with TRP => true | _ => false end
   end.
 
+(** insideOffside of the current token *)
+Definition col_inside (off : nat) (ts : list ptok) : bool :=
+  match ts with (_, c) :: _ => off <=? c | [] => false end.
+Definition head_is_eol (ts : list ptok) : bool :=
+  match ts with (TEOL, _) :: _ => true | _ => false end.
 (** insideOffside && psCurIs BAR *)
 Definition bar_inside (off : nat) (ts : list ptok) : bool :=
   match ts with (TBAR, c) :: _ => off <=? c | _ => false end.
@@ -209,28 +214,44 @@ with p_if (n : nat) (off : nat) (ts : list ptok) {struct n} : res (expr * list p
   let* (cond, r1) := p_expr n off ts in
   match r1 with
   | (TTHEN, _) :: r2 =>
-      match r2 with
-      | (TEOL, _) :: _ =>
-          let* (tb, r3) := p_block n off (skip_eol r2) in
-          match skip_eol r3 with
-          | (TELSE, _) :: r4 =>
-              let* (eb, r5) := p_block n off (skip_eol r4) in Ok (EIf cond tb (Some eb), r5)
-          | (TELIF, _) :: r4 =>
-              let* (e, r5) := p_if n off r4 in Ok (EIf cond tb (Some (Blk [SExpr e])), r5)
-          | _ => Ok (EIf cond tb None, r3)
-          end
-      | _ =>
-          (* one line: if COND then TBODY else FBODY; 'else' is looked for on the same line only *)
-          let* (te, r3) := p_expr n off r2 in
-          match r3 with
-          | (TELSE, _) :: r4 =>
-              let* (ee, r5) := p_expr n off r4 in
-              Ok (EIf cond (Blk [SExpr te]) (Some (Blk [SExpr ee])), r5)
-          | _ => Ok (EIf cond (Blk [SExpr te]) None, r3)
-          end
-      end
+      if head_is_eol r2 then
+        let* (tb, r3) := p_block n off (skip_eol r2) in
+        match skip_eol r3 with
+        | (TELSE, _) :: r4 =>
+            let* (eb, r5) := p_block n off (skip_eol r4) in Ok (EIf cond tb (Some eb), r5)
+        | (TELIF, _) :: r4 =>
+            let* (e, r5) := p_if n off r4 in Ok (EIf cond tb (Some (Blk [SExpr e])), r5)
+        | _ => Ok (EIf cond tb None, r3)
+        end
+      else p_if1 n off cond r2
   | _ => Reject
   end end
+(* its one-line branch: if COND then TBODY ...; else / elif may follow on the same line *)
+with p_if1 (n : nat) (off : nat) (cond : expr) (ts : list ptok) {struct n} : res (expr * list ptok) :=
+  match n with O => Fuel | S n =>
+  let* (te, r3) := p_expr n off ts in
+  match r3 with
+  | (TELSE, _) :: r4 =>
+      let* (ee, r5) := p_expr n off r4 in
+      Ok (EIf cond (Blk [SExpr te]) (Some (Blk [SExpr ee])), r5)
+  | (TELIF, _) :: r4 =>
+      let* (e, r5) := p_if n off r4 in Ok (EIf cond (Blk [SExpr te]) (Some (Blk [SExpr e])), r5)
+  | _ => p_if_nl n off cond te r3
+  end end
+(* ... or on a later line that is still inside the offside line of the current block
+   (nextLine = psCurIs EOL && insideOffside after psSkipEOL); otherwise an if without else *)
+with p_if_nl (n : nat) (off : nat) (cond te : expr) (r3 : list ptok) {struct n} : res (expr * list ptok) :=
+  match n with O => Fuel | S n =>
+  if head_is_eol r3 && col_inside off (skip_eol r3) then
+    match skip_eol r3 with
+    | (TELSE, _) :: r4 =>
+        let* (eb, r5) := p_block n off (skip_eol r4) in Ok (EIf cond (Blk [SExpr te]) (Some eb), r5)
+    | (TELIF, _) :: r4 =>
+        let* (e, r5) := p_if n off r4 in Ok (EIf cond (Blk [SExpr te]) (Some (Blk [SExpr e])), r5)
+    | _ => Ok (EIf cond (Blk [SExpr te]) None, r3)
+    end
+  else Ok (EIf cond (Blk [SExpr te]) None, r3)
+  end
 with p_atoms (n : nat) (off : nat) (ts : list ptok) {struct n} : res (list atom * list ptok) :=
   match n with O => Fuel | S n =>
   let* (a, r) := p_atom n off ts in
@@ -379,8 +400,8 @@ Fixpoint p_root (n : nat) (ts : list ptok) : res (list root) :=
 
 Definition parse_blocks (n : nat) (ts : list ptok) : res (list root) := p_root n ts.
 
-(** enough for every token list: each call consumes fuel 1 and at most 8 calls separate two tokens *)
-Definition fuel_for (ts : list ptok) : nat := 16 + 10 * List.length ts.
+(** enough for every token list: each call consumes fuel 1 and at most 10 calls separate two tokens *)
+Definition fuel_for (ts : list ptok) : nat := 16 + 12 * List.length ts.
 
 Definition map_cols (rho : nat -> nat) (ts : list ptok) : list ptok :=
   map (fun p => (fst p, rho (snd p))) ts.
@@ -411,14 +432,25 @@ with latoms :=
 | ACons (col : nat) (a : latom) (l : latoms)
 with lterm :=
 | LApp (a : latom) (l : latoms)
-| LIf1 (c t : sx) (e : option sx)                          (* if c then t [else e]   on one line *)
-| LIf (c : sx) (b1 : nat) (t : lblock) (r : lifrest)       (* if c then EOL block ... *)
+| LIf (c : sx) (tl : liftail)                              (* if c then ... *)
 | LMatch (tg : sx) (b0 : nat) (arms : larms)               (* union match *)
 | LSMatch (tg : sx) (b0 : nat) (arms : lsarms)             (* string match *)
+(* what follows 'then' *)
+with liftail :=
+| TMulti (b1 : nat) (t : lblock) (r : lifrest)             (* EOL, the body as a block, the rest on later lines *)
+| TOne (t : sx) (r : l1rest)                               (* the body on the same line *)
+(* after a then-block *)
 with lifrest :=
 | IEnd                                                     (* no else *)
 | IElse (bl : nat) (ecol : nat) (b : lbody)                (* else at column ecol, body on the same or next line *)
-| IElif (bl : nat) (ecol : nat) (c : sx) (b1 : nat) (t : lblock) (r : lifrest)
+| IElif (bl : nat) (ecol : nat) (c : sx) (tl : liftail)
+(* after a same-line then-body *)
+with l1rest :=
+| R1End                                                    (* no else *)
+| R1Else (e : sx)                                          (* else e            on the same line *)
+| R1Elif (c : sx) (tl : liftail)                           (* elif c then ...   on the same line *)
+| R1NlElse (bl : nat) (ecol : nat) (b : lbody)             (* else on a later line, inside the offside line *)
+| R1NlElif (bl : nat) (ecol : nat) (c : sx) (tl : liftail) (* elif on a later line, inside the offside line *)
 with lbody :=
 | BInline (b : lblock)                                     (* starts on the same line, at its own column *)
 | BNext (bl : nat) (b : lblock)                            (* starts on a later line *)
@@ -479,17 +511,28 @@ with r_atoms (l : latoms) : list ptok :=
 with r_term (c : nat) (t : lterm) : list ptok :=
   match t with
   | LApp a l => r_atom c a ++ r_atoms l
-  | LIf1 cd t None => (TIF, c) :: r_sx inner cd ++ (TTHEN, inner) :: r_sx inner t
-  | LIf1 cd t (Some e) => (TIF, c) :: r_sx inner cd ++ (TTHEN, inner) :: r_sx inner t ++ (TELSE, inner) :: r_sx inner e
-  | LIf cd b1 t r => (TIF, c) :: r_sx inner cd ++ (TTHEN, inner) :: nl b1 ++ r_block t ++ r_ifrest r
+  | LIf cd tl => (TIF, c) :: r_sx inner cd ++ (TTHEN, inner) :: r_tail tl
   | LMatch tg b0 arms => (TMATCH, c) :: r_sx inner tg ++ (TWITH, inner) :: nl b0 ++ r_arms arms
   | LSMatch tg b0 arms => (TMATCH, c) :: r_sx inner tg ++ (TWITH, inner) :: nl b0 ++ r_sarms arms
+  end
+with r_tail (tl : liftail) : list ptok :=
+  match tl with
+  | TMulti b1 t r => nl b1 ++ r_block t ++ r_ifrest r
+  | TOne t r => r_sx inner t ++ r_1rest r
   end
 with r_ifrest (r : lifrest) : list ptok :=
   match r with
   | IEnd => []
   | IElse bl ec b => nl bl ++ (TELSE, ec) :: r_body b
-  | IElif bl ec cd b1 t r' => nl bl ++ (TELIF, ec) :: r_sx inner cd ++ (TTHEN, inner) :: nl b1 ++ r_block t ++ r_ifrest r'
+  | IElif bl ec cd tl => nl bl ++ (TELIF, ec) :: r_sx inner cd ++ (TTHEN, inner) :: r_tail tl
+  end
+with r_1rest (r : l1rest) : list ptok :=
+  match r with
+  | R1End => []
+  | R1Else e => (TELSE, inner) :: r_sx inner e
+  | R1Elif cd tl => (TELIF, inner) :: r_sx inner cd ++ (TTHEN, inner) :: r_tail tl
+  | R1NlElse bl ec b => nl bl ++ (TELSE, ec) :: r_body b
+  | R1NlElif bl ec cd tl => nl bl ++ (TELIF, ec) :: r_sx inner cd ++ (TTHEN, inner) :: r_tail tl
   end
 with r_body (b : lbody) : list ptok :=
   match b with BInline b' => r_block b' | BNext bl b' => nl bl ++ r_block b' end
@@ -547,17 +590,28 @@ with er_atoms (l : latoms) : list atom :=
 with er_term (t : lterm) : expr :=
   match t with
   | LApp a l => EApp (er_atom a :: er_atoms l)
-  | LIf1 c t None => EIf (er_sx c) (Blk [SExpr (er_sx t)]) None
-  | LIf1 c t (Some e) => EIf (er_sx c) (Blk [SExpr (er_sx t)]) (Some (Blk [SExpr (er_sx e)]))
-  | LIf c _ t r => EIf (er_sx c) (er_block t) (er_ifrest r)
+  | LIf c tl => er_tail (er_sx c) tl
   | LMatch tg _ arms => EMatch (er_sx tg) (er_arms arms)
   | LSMatch tg _ arms => EMatch (er_sx tg) (er_sarms arms)
+  end
+with er_tail (cond : expr) (tl : liftail) : expr :=
+  match tl with
+  | TMulti _ t r => EIf cond (er_block t) (er_ifrest r)
+  | TOne t r => EIf cond (Blk [SExpr (er_sx t)]) (er_1rest r)
   end
 with er_ifrest (r : lifrest) : option block :=
   match r with
   | IEnd => None
   | IElse _ _ b => Some (er_body b)
-  | IElif _ _ c _ t r' => Some (Blk [SExpr (EIf (er_sx c) (er_block t) (er_ifrest r'))])
+  | IElif _ _ c tl => Some (Blk [SExpr (er_tail (er_sx c) tl)])
+  end
+with er_1rest (r : l1rest) : option block :=
+  match r with
+  | R1End => None
+  | R1Else e => Some (Blk [SExpr (er_sx e)])
+  | R1Elif c tl => Some (Blk [SExpr (er_tail (er_sx c) tl)])
+  | R1NlElse _ _ b => Some (er_body b)
+  | R1NlElif _ _ c tl => Some (Blk [SExpr (er_tail (er_sx c) tl)])
   end
 with er_body (b : lbody) : block :=
   match b with BInline b' => er_block b' | BNext _ b' => er_block b' end
@@ -599,8 +653,17 @@ Definition er_prog (p : lprog) : list root := map (fun x => RLet (er_stmt (snd x
 Definition bcol (b : lblock) : nat := match b with LB c _ _ => c end.
 Definition body_col (b : lbody) : nat := match b with BInline b' => bcol b' | BNext _ b' => bcol b' end.
 (* [prev]: the column of the block just before *)
-Fixpoint ifrest_bd (prev : nat) (r : lifrest) : nat :=
-  match r with IEnd => prev | IElse _ _ b => body_col b | IElif _ _ _ _ t r' => ifrest_bd (bcol t) r' end.
+Fixpoint tail_bd (tl : liftail) : option nat :=
+  match tl with TMulti _ t r => ifrest_bd (bcol t) r | TOne _ r => r1_bd r end
+with ifrest_bd (prev : nat) (r : lifrest) : option nat :=
+  match r with IEnd => Some prev | IElse _ _ b => Some (body_col b) | IElif _ _ _ tl => tail_bd tl end
+with r1_bd (r : l1rest) : option nat :=
+  match r with
+  | R1End => None | R1Else _ => None
+  | R1Elif _ tl => tail_bd tl
+  | R1NlElse _ _ b => Some (body_col b)
+  | R1NlElif _ _ _ tl => tail_bd tl
+  end.
 Fixpoint arms_bd (a : larms) : nat :=
   match a with MLast _ _ b => body_col b | MCons _ _ _ _ r => arms_bd r end.
 Fixpoint sarms_bd (a : lsarms) : nat :=
@@ -610,8 +673,8 @@ Fixpoint sarms_bd (a : lsarms) : nat :=
     stay strictly left of it (None: the construct ends with an atom) *)
 Definition term_bd (t : lterm) : option nat :=
   match t with
-  | LApp _ _ => None | LIf1 _ _ _ => None
-  | LIf _ _ t r => Some (ifrest_bd (bcol t) r)
+  | LApp _ _ => None
+  | LIf _ tl => tail_bd tl
   | LMatch _ _ arms => Some (arms_bd arms)
   | LSMatch _ _ arms => Some (sarms_bd arms)
   end.
@@ -619,9 +682,23 @@ Fixpoint expr_bd (e : lexpr) : option nat :=
   match e with LT t => term_bd t | LOp _ _ _ _ e' => expr_bd e' end.
 Definition stmt_bd (s : lstmt) : option nat :=
   match s with LLet _ _ e => expr_bd e | LLetFn _ _ _ b => Some (body_col b) | LExpr e => expr_bd e end.
-(** does the construct end with the arms of a match of its own block? (then a following '|' must be
-    left of that block) *)
-Definition term_tm (t : lterm) : bool := match t with LMatch _ _ _ => true | _ => false end.
+(** does the construct end with something of its own block that takes a following token standing inside
+    the offside line: the arms of a union match take a '|', a one-line if without else takes an else/elif
+    on a later line? (then such a token must be left of that block) *)
+Fixpoint tail_tm (tl : liftail) : bool :=
+  match tl with TMulti _ _ r => ifrest_tm r | TOne _ r => r1_tm r end
+with ifrest_tm (r : lifrest) : bool :=
+  match r with IEnd => false | IElse _ _ _ => false | IElif _ _ _ tl => tail_tm tl end
+with r1_tm (r : l1rest) : bool :=
+  match r with
+  | R1End => true
+  | R1Else _ => false
+  | R1Elif _ tl => tail_tm tl
+  | R1NlElse _ _ _ => false
+  | R1NlElif _ _ _ tl => tail_tm tl
+  end.
+Definition term_tm (t : lterm) : bool :=
+  match t with LMatch _ _ _ => true | LIf _ tl => tail_tm tl | _ => false end.
 Fixpoint expr_tm (e : lexpr) : bool :=
   match e with LT t => term_tm t | LOp _ _ _ _ e' => expr_tm e' end.
 Definition stmt_tm (s : lstmt) : bool :=
@@ -632,13 +709,22 @@ Definition stmt_tm (s : lstmt) : bool :=
 Fixpoint term_io (t : lterm) : bool :=
   match t with
   | LApp _ _ => false
-  | LIf1 _ _ _ => false          (* on one line 'else' is only looked for on the same line *)
-  | LIf _ _ _ r => ifrest_io r
+  | LIf _ tl => tail_io tl
   | LMatch _ _ arms => arms_io arms
   | LSMatch _ _ arms => sarms_io arms
   end
+with tail_io (tl : liftail) : bool :=
+  match tl with TMulti _ _ r => ifrest_io r | TOne _ r => r1_io r end
 with ifrest_io (r : lifrest) : bool :=
-  match r with IEnd => true | IElse _ _ b => body_io b | IElif _ _ _ _ _ r' => ifrest_io r' end
+  match r with IEnd => true | IElse _ _ b => body_io b | IElif _ _ _ tl => tail_io tl end
+(* a one-line if without else only takes an else/elif inside the offside line: see term_tm *)
+with r1_io (r : l1rest) : bool :=
+  match r with
+  | R1End => false | R1Else _ => false
+  | R1Elif _ tl => tail_io tl
+  | R1NlElse _ _ b => body_io b
+  | R1NlElif _ _ _ tl => tail_io tl
+  end
 with body_io (b : lbody) : bool :=
   match b with BInline b' => block_io b' | BNext _ b' => block_io b' end
 with expr_io (e : lexpr) : bool :=
@@ -669,8 +755,7 @@ with wf_atoms (off : nat) (l : latoms) : Prop :=
 with wf_term (off : nat) (t : lterm) : Prop :=
   match t with
   | LApp a l => wf_atom off a /\ wf_atoms off l
-  | LIf1 _ _ _ => True
-  | LIf _ _ t r => wf_block off t /\ wf_ifrest off t r
+  | LIf _ tl => wf_tail off tl
   | LMatch _ _ arms =>
       match arms with MLast _ p _ => not_default p | MCons _ p _ _ _ => not_default p end /\
       wf_arms off None arms
@@ -680,11 +765,26 @@ with wf_term (off : nat) (t : lterm) : Prop :=
   end
 (* [prev]: the block just before: 'else' / 'elif' must be strictly left of it, and it must not end in an
    if without else (that if would take the else) *)
+with wf_tail (off : nat) (tl : liftail) : Prop :=
+  match tl with
+  | TMulti _ t r => wf_block off t /\ wf_ifrest off t r
+  | TOne _ r => wf_1rest off r
+  end
 with wf_ifrest (off : nat) (prev : lblock) (r : lifrest) : Prop :=
   match r with
   | IEnd => True
   | IElse _ ec b => ec < bcol prev /\ block_io prev = false /\ wf_body off b
-  | IElif _ ec _ _ t r' => ec < bcol prev /\ block_io prev = false /\ wf_block off t /\ wf_ifrest off t r'
+  | IElif _ ec _ tl => ec < bcol prev /\ block_io prev = false /\ wf_tail off tl
+  end
+(* after a same-line then-body an else/elif on a later line must stand inside the offside line of the
+   block that contains the if *)
+with wf_1rest (off : nat) (r : l1rest) : Prop :=
+  match r with
+  | R1End => True
+  | R1Else _ => True
+  | R1Elif _ tl => wf_tail off tl
+  | R1NlElse _ ec b => off <= ec /\ wf_body off b
+  | R1NlElif _ ec _ tl => off <= ec /\ wf_tail off tl
   end
 with wf_body (off : nat) (b : lbody) : Prop :=
   match b with BInline b' => wf_block off b' | BNext _ b' => wf_block off b' end
